@@ -26,6 +26,8 @@ type histCase struct {
 	DiffNone    []bool     `json:"diffnone"` // per re-sync
 	Capacity    int        `json:"capacity"`
 	Filter      int        `json:"filter"` // receiver filter: 0 none, 1 owner->0:0, 2 owner->1000:1001
+	// DstViaLink: the destination directory is named through a symbolic link
+	DstViaLink bool `json:"dst_via_link,omitempty"`
 }
 
 var histTreeCfg = h.TreeCfg{
@@ -53,6 +55,7 @@ func genHist(t *rapid.T, allowDiffNone bool) *histCase {
 		c.DiffNone = append(c.DiffNone, allowDiffNone && rapid.IntRange(0, 4).Draw(t, fmt.Sprintf("dn%d", k)) == 0)
 	}
 	c.MemSrc = rapid.Bool().Draw(t, "memsrc")
+	c.DstViaLink = rapid.IntRange(0, 4).Draw(t, "dstvialink") == 0
 	c.MemLinkFull = rapid.IntRange(0, 3).Draw(t, "memlinkfull") != 0
 	c.Capacity = rapid.SampledFrom([]int{0, 1, 8, 64}).Draw(t, "cap")
 	c.Filter = rapid.SampledFrom([]int{0, 0, 0, 1, 2}).Draw(t, "filter")
@@ -125,7 +128,16 @@ func runResync(env *h.Env, srcTree *h.Tree, c *histCase, step int, diffNone bool
 		opt.NotifyHashed = nl.Fn
 		opt.ContentHasher = h.Hasher
 	}
-	o.res = h.RunSync(f, dstDir, h.SyncOpt{Capacity: c.Capacity, Recv: opt})
+	recvDir := dstDir
+	if c.DstViaLink {
+		// the same directory, named through a symbolic link
+		recvDir = dstDir + ".link"
+		os.Remove(recvDir)
+		if err := os.Symlink(filepath.Base(dstDir), recvDir); err != nil {
+			return nil, h.Infra(err)
+		}
+	}
+	o.res = h.RunSync(f, recvDir, h.SyncOpt{Capacity: c.Capacity, Recv: opt})
 	if o.res.Stuck != "" || o.res.SendErr != nil || o.res.RecvErr != nil {
 		return o, nil
 	}
